@@ -1251,11 +1251,11 @@ void new_interactive (socket_fd_t socket_fd) {
   if (i >= max_users) {
     if (all_users) {
       /* allocate 50 more user slots */
-      all_users = RESIZE (all_users, max_users + 50, interactive_t *, TAG_USERS, "new_user_handler");
+      all_users = RESIZE (all_users, i + 50, interactive_t *, TAG_USERS, "new_user_handler");
     }
     else {
       /* first time allocation */
-      all_users = CALLOCATE (50, interactive_t *, TAG_USERS, "new_user_handler");
+      all_users = CALLOCATE (i + 50, interactive_t *, TAG_USERS, "new_user_handler");
     }
     while (max_users < i + 50)
       all_users[max_users++] = 0;
